@@ -11,7 +11,10 @@ def propKindOf : Json → PropKind × String
   | .str s => (.str, s)
   | .num _ => (.num, "")
   | .bool _ => (.bool, "")
-  | .arr xs => (.arr, String.intercalate (String.singleton (Char.ofNat 1)) (xs.toList.filterMap fun x => x.getStr?.toOption))
+  | .arr xs =>
+    -- string elements joined by U+0001; an array with a non-string element is marked by a leading U+0002
+    if xs.toList.all (fun x => x.getStr?.toOption.isSome) then (.arr, String.intercalate (String.singleton (Char.ofNat 1)) (xs.toList.filterMap fun x => x.getStr?.toOption))
+    else (.arr, String.singleton (Char.ofNat 2))
   | .obj _ => (.obj, "")
   | .null => (.null, "")
 
@@ -77,6 +80,64 @@ deriving DecidableEq
 
 def ediagJson (d : EDiag) : Json := Json.arr #[(d.controller : Json), (d.entity : Json), (d.code : Json), (d.severity : Json)]
 
+/-- the link validator's findings before its final de-duplication: (code, what it points at).  Two findings
+    are `Equal` in the implementation when code, message and range coincide, i.e. when they are about the
+    same annotation (by position) or the same url parameter / function parameter (by name). -/
+def linkFindings (m : Method) : List (String × String) :=
+  let route := ((m.annots.filter (·.name = "Route")).getLast?.map (·.value)).getD ""
+  let urlParams := extractUrlParams route
+  let pathAttrs := (m.annots.filter (·.name = "Path")).zipIdx
+  let funcParams := m.params.map (·.name)
+  -- 1. route
+  let badAlias := pathAttrs.filter fun (a, _) => aliasOf a = .bad
+  let d1 : List (String × String) :=
+    if !badAlias.isEmpty then badAlias.map fun (_, i) => ("annotation-properties-invalid-value-for-key", s!"path#{i}")
+    else
+      let referenced := pathAttrs.map fun (a, _) => match aliasOf a with | .ok v => v | _ => a.value
+      let rec goUrl (ps : List String) (seen : List String) : List (String × String) :=
+        match ps with
+        | [] => []
+        | p :: rest =>
+          (if seen.contains p then [("linker-duplicate-url-parameter", "url:" ++ p)] else []) ++
+          (if referenced.contains p then [] else [("linker-route-missing-path-reference", "url:" ++ p)]) ++
+          goUrl rest (if seen.contains p then seen else seen ++ [p])
+      goUrl urlParams []
+  -- 2. @Path annotations
+  let rec goPath (as : List (Annot × Nat)) (seenParams seenVals seenAliases : List String) : List (String × String) × List String :=
+    match as with
+    | [] => ([], seenParams)
+    | (a, i) :: rest =>
+      let known := funcParams.contains a.value
+      let dA := if !known then [("linker-path-annotation-invalid-reference", s!"path#{i}:value")]
+                else if seenParams.contains a.value then [("linker-multiple-parameter-refs", s!"path#{i}")] else []
+      let seenParams' := if known && !seenParams.contains a.value then seenParams ++ [a.value] else seenParams
+      let dB := if seenVals.contains a.value then [("linker-duplicate-path-param", s!"path#{i}")] else []
+      let seenVals' := if seenVals.contains a.value then seenVals else seenVals ++ [a.value]
+      let (dC, seenAliases') :=
+        match aliasOf a with
+        | .bad => ([("annotation-properties-invalid-value-for-key", s!"path#{i}")], seenAliases)
+        | .ok al =>
+          if al.isEmpty then ([], seenAliases) else
+          ((if seenAliases.contains al then [("linker-duplicate-path-alias-ref", s!"path#{i}")] else []) ++
+           (if urlParams.contains al then [] else [("linker-path-annotation-invalid-reference", s!"path#{i}:alias")]),
+           if seenAliases.contains al then seenAliases else seenAliases ++ [al])
+        | .none => ([], seenAliases)
+      let (r, sp) := goPath rest seenParams' seenVals' seenAliases'
+      (dA ++ dB ++ dC ++ r, sp)
+  let (d2, seen2) := goPath pathAttrs [] [] []
+  -- 3. other binding annotations with a non-blank value
+  let others := (m.annots.filter fun a => isBindingAnnot a.name && !(a.value.toList.all (· = ' '))).zipIdx
+  let d3 := (others.filter fun (a, _) => !funcParams.contains a.value).map fun (_, i) => ("linker-path-annotation-invalid-reference", s!"other#{i}")
+  let seen3 := seen2 ++ (others.filter fun (a, _) => funcParams.contains a.value).map (·.1.value)
+  -- 4. every non-context parameter is referenced
+  let d4 := (m.params.filter fun p => !seen3.contains p.name && !isContextType p.type).map fun p => ("linker-unreferenced-parameter", "param:" ++ p.name)
+  d1 ++ d2 ++ d3 ++ d4
+
+
+/-- `AnnotationLinkValidator.Validate` ends by dropping findings that are `Equal` to an earlier one; the proved
+    model (`Validate.linkValidate`) keeps them (its theorems are about emptiness, which de-duplication preserves) -/
+def linkValidateDedup (m : Method) : List Diag := (linkFindings m).eraseDups.map fun (c, _) => err c
+
 /-- is the method picked up as a route at all: it needs @Method and @Route (the visitor ignores others) -/
 def isRoute (m : Method) : Bool := m.annots.any (·.name = "Method") && m.annots.any (·.name = "Route")
 
@@ -89,7 +150,9 @@ def modelDiags (p : PProject) : Option (List EDiag) :=
       let ms := (c.methods.filter (isRoute ·.m)).foldl (fun acc2 pm =>
         acc2.bind fun ds2 =>
           (validateReceiver p.env [] p.enforce p.defaultSecurity.isSome c.annots pm.m).map fun r =>
-            ds2 ++ r.map fun d => (⟨c.name, pm.m.name, d.code, d.severity⟩ : EDiag)) (some [])
+            -- validateReceiver = … ++ linkValidate m: swap the raw link findings for the de-duplicated ones
+            let r' := r.take (r.length - (linkValidate pm.m).length) ++ linkValidateDedup pm.m
+            ds2 ++ r'.map fun d => (⟨c.name, pm.m.name, d.code, d.severity⟩ : EDiag)) (some [])
       ms.map fun m => ds ++ self ++ m) (some [])
 
 /-- `ApiValidator.inPlaceAppendPathConflictDiagnostics`: every receiver named by a conflict gets a
@@ -162,6 +225,7 @@ def checkC10 (p : PProject) (impl : Json) : PropOut := Id.run do
   let idg := dedupConflicts (implDiags impl)
   let valErr := jstrD impl "validateErr"
   let mut fails : List String := []
+  let mut mfails : List String := []
   let mview : Json := match md with
     | some ds => Json.mkObj [("diags", Json.arr (sortDiags ds).toArray)]
     | none => Json.mkObj [("diags", Json.str "hard-error")]
@@ -178,7 +242,11 @@ def checkC10 (p : PProject) (impl : Json) : PropOut := Id.run do
         let rejected := idg.any fun d => d.controller = c.name && d.entity = pm.m.name && d.severity = 1 && d.code ≠ "receiver-missing-security"
         if wl.isEmpty then nWl := nWl + 1 else nBad := nBad + 1
         -- annotation-level well-formedness (unknown annotation, bad status code, …) is a separate ground for rejection
-        let annotErr := (commonValidate "route" pm.m.annots).any (·.severity = 1)
+        let annotErr := (commonValidate "route" pm.m.annots).any (·.severity = 1) ||
+          -- an alias that is not a string is a malformed annotation, reported by the link validator as an error
+          pm.m.annots.any (fun a => a.name = "Path" && aliasOf a = .bad)
+        -- the driver's de-duplicated link findings and the proved model agree on emptiness
+        if (linkFindings pm.m).isEmpty != (linkValidate pm.m).isEmpty then mfails := mfails ++ [s!"link-findings-vs-model:{c.name}.{pm.m.name}"]
         if wl.isEmpty && rejected && !annotErr then
           let fid := c10FindingOf ctrlRoute pm.m false wl
           fails := fails ++ [(if fid.isEmpty then "" else fid ++ ":") ++ s!"well-linked-route-rejected:{c.name}.{pm.m.name}"]
@@ -195,14 +263,20 @@ def checkC10 (p : PProject) (impl : Json) : PropOut := Id.run do
       match findFirstByValue pm.m.annots q.name with
       | some a => !(bindingNames.contains a.name)
       | none => false
-    if allWl then fails := fails ++ [(if shadowed then "C10-F1:" else "") ++ "well-linked-project-rejected-with-hard-error"]
+    -- a `scopes` property that is not an array of strings cannot be read at all: the validators give up with an
+    -- error (not a diagnostic); that is a refusal of a malformed annotation, not of a well-linked project
+    let malformedScopes := p.controllers.any fun c => (c.annots :: c.methods.map (·.m.annots)).any fun as => as.any fun a =>
+      a.name = "Security" && (match a.props.find? (·.1 = "scopes") with
+        | some (_, k, v) => k != .arr || v.startsWith (String.singleton (Char.ofNat 2))
+        | none => false)
+    if allWl && !malformedScopes then fails := fails ++ [(if shadowed then "C10-F1:" else "") ++ "well-linked-project-rejected-with-hard-error"]
   if valErr = "" && jstrD impl "graphErr" = "" && jstrD impl "setupErr" = "" && jstrD impl "configErr" = "" then
     -- … else blocks all output
     let anyErr := idg.any (·.severity = 1)
     let produced := (impl.getObjVal? "ir").toOption.isSome || (impl.getObjVal? "out").toOption.isSome
     if anyErr && produced then fails := fails ++ ["output-despite-error-diagnostic"]
     if anyErr && jstrD impl "runErr" ≠ "error-diagnostics" then fails := fails ++ ["error-diagnostic-not-fatal"]
-  return { model := mview, implView := iview, implFails := fails, nontrivial := nBad > 0 || nWl > 0,
+  return { model := mview, implView := iview, implFails := fails, modelFails := mfails, nontrivial := nBad > 0 || nWl > 0,
            notes := [s!"d:well-linked={nWl}", s!"d:ill-linked={nBad}"] ++ (if valErr ≠ "" then ["d:hard-error"] else []) }
 
 /-! ### C18 -/
